@@ -176,7 +176,8 @@ def compact(a, k, r):
     xs = _seq_input(a[0])
     if xs is None or len(a) > 1:
         return None
-    exp = [x for x in xs if x is not None]
+    # nil values are removed: None itself, and whatever the map filter put in for a property that is missing (an object that equals nil)
+    exp = [x for x in xs if x is not None and not (type(x).__name__ == "_Null")]
     return _new_list(a[0], r) and len(r) == len(exp) and all(x is y for x, y in zip(r, exp))
 
 
